@@ -735,7 +735,7 @@ impl BufferParser for Parser {
                             if self.parsed_numbers[0] >= 0 {
                                 // always be in terminal mode for gotoxy
                                 caret.pos.y = buf.get_first_visible_line()
-                                    + max(0, self.parsed_numbers[0] - 1);
+                                    .saturating_add(max(0, self.parsed_numbers[0] - 1));
                             }
                             if self.parsed_numbers.len() > 1 {
                                 if self.parsed_numbers[1] >= 0 {
@@ -808,7 +808,7 @@ impl BufferParser for Parser {
                             Some(n) => n - 1,
                             _ => 0,
                         };
-                        caret.pos.y = buf.get_first_visible_line() + num;
+                        caret.pos.y = buf.get_first_visible_line().saturating_add(num);
                         buf.terminal_state.limit_caret_pos(buf, caret);
                         return Ok(CallbackAction::Update);
                     }
@@ -820,7 +820,7 @@ impl BufferParser for Parser {
                             Some(n) => *n,
                             _ => 1,
                         };
-                        caret.pos.y = buf.get_first_visible_line() + caret.pos.y + num;
+                        caret.pos.y = buf.get_first_visible_line().saturating_add(caret.pos.y).saturating_add(num);
                         buf.terminal_state.limit_caret_pos(buf, caret);
                         return Ok(CallbackAction::Update);
                     }
@@ -852,7 +852,7 @@ impl BufferParser for Parser {
                         if let Some(layer) = &buf.layers.first() {
                             if let Some(line) = layer.lines.get(caret.pos.y as usize) {
                                 caret.pos.x =
-                                    min(line.get_line_length(), caret.pos.x + num);
+                                    min(line.get_line_length(), caret.pos.x.saturating_add(num));
                                 buf.terminal_state.limit_caret_pos(buf, caret);
                             }
                         } else {
@@ -879,7 +879,7 @@ impl BufferParser for Parser {
                             Some(n) => *n,
                             _ => 1,
                         };
-                        caret.pos.y = buf.get_first_visible_line() + caret.pos.y + num;
+                        caret.pos.y = buf.get_first_visible_line().saturating_add(caret.pos.y).saturating_add(num);
                         caret.pos.x = 0;
                         buf.terminal_state.limit_caret_pos(buf, caret);
                         return Ok(CallbackAction::Update);
@@ -891,7 +891,7 @@ impl BufferParser for Parser {
                             Some(n) => *n,
                             _ => 1,
                         };
-                        caret.pos.y = buf.get_first_visible_line() + caret.pos.y - num;
+                        caret.pos.y = buf.get_first_visible_line().saturating_add(caret.pos.y).saturating_sub(num);
                         caret.pos.x = 0;
                         buf.terminal_state.limit_caret_pos(buf, caret);
                         return Ok(CallbackAction::Update);
